@@ -8,7 +8,8 @@
                                     full bits ...) with idle inputs -- used to enumerate the
                                     implementation's reachable state space
 
-obs = {enq_rdy, deq_rdy, enq_xfer, deq_xfer, deq_msg, count, count2}; an entry is None when the
+obs = {enq_rdy, deq_rdy, enq_xfer, deq_xfer, deq_msg, count, count2 [, st2]}; st2 = occupancy of the
+stages after the clock edge, only for classes built as a chain of queues; an entry is None when the
 interface does not expose that output in that cycle (e.g. the valid bit of an en/rdy *send* port
 while the consumer is not ready, or a count on a queue without a count port and without a
 readable full bit).
@@ -45,7 +46,8 @@ IDLE_MSG = 0x7EADBEEF        # what an idle producer leaves on the message port 
 # --------------------------------------------------------------------------------------------
 
 class Entry:
-    def __init__(self, name, module, cls, kind, iface, caps, ctor, has_reset=True, count=None, note=""):
+    def __init__(self, name, module, cls, kind, iface, caps, ctor, has_reset=True, count=None, note="",
+                 chain=None, stages=None):
         self.name = name            # stable identifier used in violation keys
         self.module = module
         self.cls = cls
@@ -57,6 +59,9 @@ class Entry:
         self.has_reset = has_reset  # does `reset` clear the queue?  (read from the code)
         self.count = count          # how the occupancy is observed (see adapters)
         self.note = note
+        self.chain = chain          # model of FifoTrace / graph that describes the class's structure, if
+                                    # the class is a composition of queues (used when it does not meet `kind`)
+        self.stages = stages        # full bits of the stages of such a composition, enqueue side first
 
 
 def catalogue():
@@ -79,7 +84,8 @@ def catalogue():
                    "enrdy", (1,), t_1, count="full:full.out"))
     E.append(Entry("enrdy.BypassQueue2RTL", "pymtl3.stdlib.queues.enrdy_queues", "BypassQueue2RTL", "bypass",
                    "enrdy", (2,), lambda cls, T, n: cls(T, queue_size=n), count="full:q1.full.out+q2.full.out",
-                   note="two BypassQueue1RTL in series"))
+                   note="two BypassQueue1RTL in series", chain="bypass2chain",
+                   stages=("q1.full.out", "q2.full.out")))
     # stdlib/queues/valrdy_queues.py: InValRdyIfc/OutValRdyIfc
     for k, c in (("normal", "NormalQueue1RTL"), ("pipe", "PipeQueue1RTL"), ("bypass", "BypassQueue1RTL")):
         E.append(Entry("valrdy." + c, "pymtl3.stdlib.queues.valrdy_queues", c, k, "valrdy", (1,), t_1,
@@ -226,6 +232,9 @@ class _RTL:
         self._signames = names
         self._sigf = eval("lambda s: (" + "".join("int(%s)," % n for n in names) + ")")
         self._countf = self._mk_count(entry.count)
+        self._stagef = None
+        if entry.stages:
+            self._stagef = eval("lambda s: (" + "".join("int(s.%s)," % e for e in entry.stages) + ")")
         self._idle()
         top.sim_reset()
         self._idle()
@@ -246,6 +255,9 @@ class _RTL:
 
     def count(self):
         return None if self._countf is None else self._countf(self.top)
+
+    def stages(self):
+        return None if self._stagef is None else self._stagef(self.top)
 
     def sig(self):
         return self._sigf(self.top)
@@ -335,6 +347,8 @@ class EnRdyDut(_RTL):
         self._idle()
         t.sim_eval_combinational()
         obs["count2"] = self.count()
+        if self._stagef is not None:
+            obs["st2"] = self.stages()
         return obs
 
 
